@@ -22,9 +22,21 @@ TECHNIQUE = "Coq lemma on the fence-marker choice + skeleton tie; round trip dec
 
 def add_reflinks(r, tree):
     """append paragraphs that use reference links / images, and their definitions"""
-    labels = r.sample(["ref", "two words", "k2", "Zed"], r.randint(1, 3))
-    uses = " and ".join(r.choice(["[%s][%s]" % (r.choice(canon.WORDS), l), "[%s]" % l, "![%s][%s]" % (r.choice(canon.WORDS), l)]) for l in labels)
-    defs = "\n".join("[%s]: /u%d%s" % (l, i, r.choice(["", ' "title %d"' % i])) for i, l in enumerate(labels))
+    labels = r.sample(["ref", "two words", "k2", "Zed", "a longer label"], r.randint(1, 3))
+
+    def spell(l):
+        # the same label as the parser matches it: any case, any run of blanks or one line ending between its words
+        k = r.random()
+        if k < 0.5:
+            return l
+        if k < 0.65:
+            return r.choice([l.upper(), l.title(), l.swapcase()])
+        if " " in l:
+            return l.replace(" ", r.choice(["  ", "\n", " \n", "\t", "   "]), 1 if r.random() < 0.5 else -1)
+        return l.lower()
+    uses = " and ".join(r.choice(["[%s][%s]" % (r.choice(canon.WORDS), spell(l)), "[%s]" % spell(l), "![%s][%s]" % (r.choice(canon.WORDS), spell(l)),
+                                  "[%s][]" % spell(l)]) for l in labels)
+    defs = "\n".join("[%s]: /u%d%s" % (spell(l) if r.random() < 0.3 else l, i, r.choice(["", ' "title %d"' % i])) for i, l in enumerate(labels))
     return uses, defs
 
 
